@@ -10,6 +10,7 @@ PROP = {'modules': ['SfntV.Props.C13'],
                        'C13_dictreal_decimal',
                        'C13_dictreal_roundtrip_partial',
                        'C13_dictreal_roundtrip',
+                       'C13_dict_roundtrip',
                        'C13_charset_roundtrip',
                        'C13_fdselect_roundtrip',
                        'C13_strings_roundtrip',
